@@ -189,6 +189,15 @@ class Ctx:
         if self.mode == "symbolic":
             self._p.assume(cond, "lemma " + clause)
 
+    def axiom(self, text, cond):
+        """A mathematical fact used as a hypothesis (A4); listed in the evidence; checked numerically
+        in concrete mode so that a wrong axiom cannot hide."""
+        if self.mode == "symbolic":
+            self._p.notes.append("axiom (A4): " + text)
+            self._p.assume(cond, "lemma axiom " + text)
+        else:
+            self.results.append(("axiom/" + text, bool(cond), {}))
+
     def eq(self, a, b, tol=None):
         """a == b (exact for proxies; within tolerance for floats), elementwise for arrays."""
         if isinstance(a, (np.ndarray, list, tuple)) or isinstance(b, (np.ndarray, list, tuple)):
